@@ -27,8 +27,12 @@ Line protocol of the C08 model (fast fields / columnar).
   stack <inputs>                     -> rows of read(mergeStacked)
   colrange <lo> <hi> <s> <e> <rows>  -> Column::get_docids_for_value_range on the written column
   inrange <lo> <hi> <rows>           -> docsInRange
+  dictalive <alive> <order> <dicts> <inputs> -> the same with the term bitsets computed by the model: alive
+                                        per segment `*` (no alive bitset) or the alive rows
+  dictstack <dicts> <inputs>         -> `merged;rows` of merge_bytes_or_str_column under MergeRowOrder::Stack
   colfile <hex> <docs|all>           -> `card numDocs numVals;rows` open_column_u64 on a whole column file and
                                         values_for_doc of the docs | corrupt
+  colfile128 <hex> <docs|all>        -> the same through open_column_u128 (compact-space values)
   dictshuffle <used> <order> <dicts> <inputs> -> `merged;rows` of merge_bytes_or_str_column: the merged
                                         dictionary and the rows of remapped ordinals (inputs: rows of old ordinals)
   dictmerge <used> <dicts>           -> `merged;map/map/..` of merge_dict_and_compute_term_ord_mapping: dicts
@@ -82,6 +86,20 @@ def usedFn (u : List (Option (List Nat))) (s o : Nat) : Bool :=
   match u.getD s (some []) with
   | none => true
   | some l => l.contains o
+
+def showColFile (r : Option (Option ColFile)) (docs : String) : String :=
+  match r with
+  | some (some f) =>
+    let n := f.idx.numDocs f.vals.length
+    let card := match f.idx with | .full => 0 | .optional _ => 1 | .multivalued _ _ => 2
+    match (if docs == "all" then some (List.range n) else natList docs) with
+    | some ds =>
+      if ds.all (fun d => decide (d < n)) then
+        s!"{card} {n} {f.vals.length};{showRows (ds.map f.readRow)}"
+      else "bad-op"
+    | none => "bad-op"
+  | some none => "corrupt"
+  | none => "bad-op"
 
 def parseCard : String → Option (Option Card)
   | "auto" => some none
@@ -225,21 +243,21 @@ def handle : List String → String
       let m := mergeDictColumnAs (shuffledCard o ords) (usedFn u) o ins
       showNatList m.1 ++ ";" ++ showRows (read m.2.1 m.2.2)
     | _, _, _, _ => "bad-op"
-  | ["colfile", h, docs] =>
-    match bytesArg h with
-    | some bytes =>
-      match openColumnFile bytes with
-      | some f =>
-        let n := f.idx.numDocs f.vals.length
-        let card := match f.idx with | .full => 0 | .optional _ => 1 | .multivalued _ _ => 2
-        match (if docs == "all" then some (List.range n) else natList docs) with
-        | some ds =>
-          if ds.all (fun d => decide (d < n)) then
-            s!"{card} {n} {f.vals.length};{showRows (ds.map f.readRow)}"
-          else "bad-op"
-        | none => "bad-op"
-      | none => "corrupt"
-    | none => "bad-op"
+  | ["dictalive", alive, order, dicts, inputs] =>
+    match parseUsed alive, parseOrder order, (dicts.splitOn "/").mapM natList, parseInputs inputs with
+    | some al, some o, some ds, some ords =>
+      let ins : List DictInput := (ds.zip ords).map (fun p => ⟨p.1, p.2⟩)
+      let m := mergeDictColumnAs (shuffledCard o ords) (usedOf al ins) o ins
+      showNatList m.1 ++ ";" ++ showRows (read m.2.1 m.2.2)
+    | _, _, _, _ => "bad-op"
+  | ["dictstack", dicts, inputs] =>
+    match (dicts.splitOn "/").mapM natList, parseInputs inputs with
+    | some ds, some ords =>
+      let m := mergeDictColumnStacked ((ds.zip ords).map (fun p => ⟨p.1, p.2⟩))
+      showNatList m.1 ++ ";" ++ showRows (read m.2.1 m.2.2)
+    | _, _ => "bad-op"
+  | ["colfile", h, docs] => showColFile ((bytesArg h).map openColumnFile) docs
+  | ["colfile128", h, docs] => showColFile ((bytesArg h).map openColumnFile128) docs
   | ["inrange", lo, hi, rows] =>
     match lo.toNat?, hi.toNat?, parseRows rows with
     | some lo, some hi, some rows => showNatList (docsInRange id rows lo hi)
